@@ -21,13 +21,14 @@ import base64, hashlib, hmac, json, os, random, re, struct, subprocess, sys, tim
 import concurrent.futures as cf
 import contextlib, threading
 import vlib
+os.environ.setdefault("JAVA_TOOL_OPTIONS", "-Xmx2g")      # (several TLC runs side by side on a shared machine)
 sys.path.insert(0, os.path.join(vlib.ROOT, "tools"))
 import vserver
 
 PROP = "C19"
 SECRET = "c19-shared-secret"
 IMPL_DEV = ["unwrapped_failpoint", "unwrapped_debug", "unwrapped_expvar", "unwrapped_runtimecfg", "noauthz_createdb",
-            "noauthz_logkeeper", "user_slot_alias"]
+            "noauthz_logkeeper", "user_slot_alias", "cache_hit_skips_authz", "reject_then_continue", "noauthz_sideport"]
 NONDETERMINISTIC = {"user_slot_alias"}     # a race: re-observed by chance, never required
 SEEDS = {  # mutation seeds: deviation -> properties one of which TLC must report violated
     "readonly_may_write": {"NoActionWithoutPrivilege", "NoPartialEffect", "GrantRevokeExact"},
@@ -48,10 +49,17 @@ SEEDS = {  # mutation seeds: deviation -> properties one of which TLC must repor
     "noauthz_createdb": {"NoActionWithoutPrivilege", "NoPartialEffect"},
     "noauthz_logkeeper": {"NoActionWithoutPrivilege", "NoPartialEffect", "ListingsFiltered"},
     "user_slot_alias": {"NoActionWithoutPrivilege", "NoPartialEffect"},
+    "cache_hit_skips_authz": {"NoActionWithoutPrivilege", "NoPartialEffect"},      # (Auth.exh.cache.cfg: privileged user fills, unprivileged user hits)
+    "reject_then_continue": {"NoActionWithoutPrivilege", "NoPartialEffect"},       # (Auth.exh.ports.cfg)
+    "noauthz_sideport": {"NoActionWithoutPrivilege", "NoPartialEffect"},           # (Auth.exh.ports.cfg)
 }
+SEED_CFG = {"user_slot_alias": "Auth.exh.race.cfg", "cache_hit_skips_authz": "Auth.exh.cache.cfg", "reject_then_continue": "Auth.exh.ports.cfg",
+            "noauthz_sideport": "Auth.exh.ports.cfg"}      # deviations that need a configuration of their own
 ALL_CLASSES = ["ping", "preflight", "query", "write", "read", "fence", "metrics", "createdb", "control", "failpoint", "pprof",
                "debugquery", "expvar", "runtimecfg", "flux", "lk_mgmt", "lk_list", "lk_show", "lk_write", "lk_query", "lk_consume",
-               "lk_noop"]
+               "lk_noop", "cread", "m_internals", "m_control", "m_stats", "s_stats"]
+SIDE_CLASSES = {"m_internals": "meta", "m_control": "meta", "m_stats": "meta", "s_stats": "store"}      # route class -> server role (port)
+PORTS_CLASSES = set(SIDE_CLASSES) | {"cread"}      # played on the server that carries the side ports and the response cache
 LK_CLASSES = {"lk_mgmt", "lk_list", "lk_show", "lk_write", "lk_query", "lk_consume", "lk_noop"}
 ALL_KINDS = ["sel", "sel_into", "show_in", "show_dbs", "delete", "drop_rp", "create_db", "drop_db", "create_rp", "user_admin",
              "root_show", "root_ddl"]
@@ -175,11 +183,19 @@ class AuthServer(vserver.Server):
     """ts-server with auth-enabled = true; the administrator is created first (the only request an empty user
     table lets through), then the server is waited for with his credentials"""
 
-    def __init__(self, seed, logkeeper=False, name="c19"):
+    def __init__(self, seed, logkeeper=False, name="c19", store_port=False):
         self.admin = ("admin", f"Adm1n#Root_{seed}x")
         self.logkeeper = logkeeper
+        self.store_proc = None
+        self.store_addr = None
+        # every role's HTTP port asks for credentials: [http] the SQL port, [meta] the meta port, [data.ops-monitor] the
+        # store's; the response cache of the Prometheus range queries is on (answers older than a minute are cached)
         extra = {"http": {"auth-enabled": "true", "shared-secret": f'"{SECRET}"', "pprof-enabled": "true"},
-                 "coordinator": {"rp-limit": "100000"}}      # (default: 100 retention policies in total)
+                 "meta": {"auth-enabled": "true"},
+                 "coordinator": {"rp-limit": "100000"},      # (default: 100 retention policies in total)
+                 "http.result-cache": {"result-cache-enabled": "true", "max-cache-freshness": '"1m"', "cache-type": "0",
+                                       "split-queries-by-interval": '"24h"', "memcache-size": "102400", "memcache-expiration": '"30m"'},
+                 "data.ops-monitor": {"store-http-addr": '"127.0.0.1:@P9@"', "auth-enabled": "true"}}
         if logkeeper:
             extra["common"] = {"product-type": '"logkeeper"'}
         with START_LOCK:      # (port blocks are probed and bound a moment later: one server at a time)
@@ -188,7 +204,7 @@ class AuthServer(vserver.Server):
                 self.patch_conf()
                 try:
                     self.start()
-                    return
+                    break
                 except vlib.Infra as ex:
                     if "address already in use" not in str(ex) or attempt == 4:
                         self.stop()
@@ -198,6 +214,113 @@ class AuthServer(vserver.Server):
                     self.port = self.base + 3
                     self.url = f"http://127.0.0.1:{self.port}"
                     self._write_conf()
+            if store_port:
+                try:
+                    self.open_store_port()
+                except BaseException:
+                    self.stop()
+                    raise
+
+    def stop(self):
+        if self.store_proc is not None:
+            try:
+                self.store_proc.stdin.close()
+                self.store_proc.wait(timeout=10)
+            except Exception:
+                self.store_proc.kill()
+            self.store_proc = None
+        super().stop()
+
+    # ---- the HTTP ports of the three roles -----------------------------------------------------------
+    def role_url(self, role):
+        if role in (None, "sql"):
+            return self.url
+        if role == "meta":
+            return f"http://127.0.0.1:{self.base + 1}"
+        if role == "store":
+            if self.store_addr is None:
+                raise vlib.Infra("the store role's HTTP port was not opened on this server")
+            return "http://" + self.store_addr
+        raise vlib.Infra(f"unknown server role {role}")
+
+    def listening(self):
+        """-> the loopback TCP ports the server process listens on (from /proc: the running process, not the configuration)"""
+        pid = self.proc.pid
+        inodes = set()
+        try:
+            for fd in os.listdir(f"/proc/{pid}/fd"):
+                try:
+                    t = os.readlink(f"/proc/{pid}/fd/{fd}")
+                except OSError:
+                    continue
+                if t.startswith("socket:["):
+                    inodes.add(t[8:-1])
+        except OSError as ex:
+            raise vlib.Infra(f"cannot read the sockets of the server process: {ex}")
+        ports = set()
+        for f in ("/proc/net/tcp", "/proc/net/tcp6"):
+            try:
+                lines = open(f).read().splitlines()[1:]
+            except OSError:
+                continue
+            for ln in lines:
+                c = ln.split()
+                if c[3] == "0A" and c[9] in inodes:
+                    ports.add(int(c[1].rsplit(":", 1)[1], 16))
+        return sorted(ports)
+
+    def speaks_http(self, port):
+        """does the port answer an HTTP request (any status)?"""
+        import socket
+        try:
+            with socket.create_connection(("127.0.0.1", port), timeout=3) as sk:
+                sk.settimeout(3)
+                sk.sendall(b"GET /c19-port-probe HTTP/1.0\r\nHost: x\r\n\r\n")
+                data = sk.recv(64)
+        except Exception:
+            return False
+        return data.startswith(b"HTTP/1.")
+
+    def open_store_port(self):
+        """The store role's HTTP service (app/ts-store/run/service.go) is constructed by ts-store / ts-server but never
+        opened in this tree (the configured port does not listen).  It is opened from the same exported constructors in
+        the harness (vh sideport-store) on the port the configuration names, with the user table of the live catalogue."""
+        port = self.base + 9
+        if self.store_proc is not None:          # (again: the user table of the catalogue has changed)
+            try:
+                self.store_proc.stdin.close()
+                self.store_proc.wait(timeout=10)
+            except Exception:
+                self.store_proc.kill()
+            self.store_proc = None
+        self.store_conf_listens = port in self.listening()
+        if self.store_conf_listens:          # (a tree that opens the service itself: probe the real one)
+            self.store_addr = f"127.0.0.1:{port}"
+            return
+        st, body, _ = self.raw("GET", "/getdata", {"parts": "Users"}, headers=basic_header(self.admin), port="meta")
+        if st != 200:
+            raise vlib.Infra(f"meta port /getdata as the administrator: {st} {body[:200]!r}")
+        users = json.loads(body)["Users"]
+        uf = os.path.join(self.dir, "store-users.json")
+        json.dump(users, open(uf, "w"))
+        vh = vlib.build_vh()
+        env = dict(os.environ, HOME=self.dir)
+        self.store_proc = subprocess.Popen([vh, "sideport-store", "-addr", f"127.0.0.1:{port}", "-users", uf], stdin=subprocess.PIPE,
+                                           stdout=subprocess.PIPE, stderr=open(os.path.join(self.dir, "sideport.log"), "ab"), env=env,
+                                           cwd=self.dir, start_new_session=True)
+        line = self.store_proc.stdout.readline()
+        while line and b"READY" not in line:
+            line = self.store_proc.stdout.readline()
+        if b"READY" not in line:
+            raise vlib.Infra("vh sideport-store did not come up: " + open(os.path.join(self.dir, "sideport.log")).read()[-1500:])
+        self.store_addr = f"127.0.0.1:{port}"
+        self.store_users = len(users)
+
+    def _write_conf(self):
+        om = self.extra.get("data.ops-monitor")
+        if om:
+            om["store-http-addr"] = f'"127.0.0.1:{self.base + 9}"'
+        super()._write_conf()
 
     def patch_conf(self):
         # the runtime-config service registers GET /runtime_config
@@ -248,9 +371,9 @@ class AuthServer(vserver.Server):
         i = max(txt.find("panic:"), txt.find("fatal error:"), txt.find("SIGSEGV"))
         return f"(exit status {self.proc.poll() if self.proc else None}) " + (txt[max(0, i - 200): i + 2500] if i >= 0 else txt[-2500:])
 
-    def raw(self, method, path, params=None, body=None, headers=None, timeout=30):
-        """-> (status, body bytes, headers)"""
-        url = self.url + path
+    def raw(self, method, path, params=None, body=None, headers=None, timeout=30, port=None):
+        """-> (status, body bytes, headers); port = the role whose HTTP port is asked (default: sql)"""
+        url = self.role_url(port) + path
         if params:
             url += "?" + urllib.parse.urlencode(params, doseq=True)
         data = body.encode() if isinstance(body, str) else body
@@ -330,6 +453,19 @@ class World:
         self.ndel, self.del_next, self.rpx = 0, {}, {}
         self.lk = srv.logkeeper
         self.ls = "c19ls"                                          # log stream (= retention policy) of the repositories
+        # the cacheable read: samples three hours old (older than max-cache-freshness); the response cache is keyed by the
+        # request text, so the key of the specification (one per database) is a label matcher that every request of one
+        # behaviour shares (cache_ns set) and that is fresh for every request otherwise (the matrix: always a miss)
+        self.old_t0 = (int(time.time()) - 3 * 3600) // 60 * 60
+        self.cache_ns = None
+        self.cread_family = 0                                     # which of the cacheable routes a behaviour uses
+        self.side = False                                         # the facts include the switches of the meta port
+
+    def ckey(self, d):
+        return f"{self.cache_ns}{d}" if self.cache_ns else f"u{self.mk()}"
+
+    def old_range(self):
+        return {"start": str(self.old_t0), "end": str(self.old_t0 + 1740), "step": "60"}
 
     def mk(self):
         self._mk += 1
@@ -372,6 +508,15 @@ class World:
             raise vlib.Infra(f"fixture write refused: {st} {body[:200]!r}")
         pb = snappy_encode(prom_write_request([({"__name__": "c19metric", "job": self.tok_rows[d]}, [(1.5, ts // 10 ** 6)])]))
         s.raw("POST", "/api/v1/write", {"db": D}, pb, {**basic_header(s.admin), "Content-Encoding": "snappy", "Content-Type": "application/x-protobuf"})
+        old = [(float(i), (self.old_t0 + 60 * i) * 1000) for i in range(30)]
+        pb = snappy_encode(prom_write_request([({"__name__": "c19old", "job": self.tok_rows[d]}, old)]))
+        for attempt in range(40):
+            st, body, _ = s.raw("POST", "/api/v1/write", {"db": D}, pb, {**basic_header(s.admin), **PROM_HDR})
+            if st == 204:
+                break
+            time.sleep(0.5)
+        else:
+            raise vlib.Infra(f"fixture write of old samples refused: {st} {body[:200]!r}")
         err = s.addl(f'CREATE RETENTION POLICY {self.vicrp} ON "{D}" DURATION 3d REPLICATION 1', ok_errors=("already exists",), tries=20)
         if err:
             raise vlib.Infra(f"fixture retention policy: {err}")
@@ -383,11 +528,35 @@ class World:
         t0 = time.time()
         while True:
             res = s.aq("; ".join(f'select count(v) from "{self.db[d]}".autogen.c19m; select count(v) from "{self.db[d]}".autogen.c19del' for d in ds))
-            if all(values_of(r, 1) == [1] for r in res):
+            if all(values_of(r, 1) == [1] for r in res) and all(self.old_visible(d) for d in ds):
                 return
             if time.time() - t0 > bound:
                 raise vlib.Infra(f"fixture rows did not become visible within {bound}s: {res}")
             time.sleep(0.4)
+
+    def old_visible(self, d):
+        """the old samples answer a range query (asked with Cache-Control: no-store: nothing is left in the response cache)"""
+        st, body, _ = self.srv.raw("GET", "/api/v1/query_range", {"db": self.db[d], "query": "c19old", **self.old_range()},
+                                   headers={**basic_header(self.srv.admin), "Cache-Control": "no-store"})
+        return st == 200 and self.tok_rows[d].encode() in body
+
+    def meta_flags(self):
+        """the switches and the snapshot index of the meta node, as its HTTP port shows them to the administrator"""
+        s = self.srv
+        out = set()
+        st, body, _ = s.raw("GET", "/getdata", {"parts": "TakeOverEnabled,BalancerEnabled"}, headers=basic_header(s.admin), port="meta")
+        try:
+            for k, v in sorted(json.loads(body).items()):
+                out.add(f"meta:{k}:{v}")
+        except Exception:
+            out.add(f"meta:!{st}")
+        st, body, _ = s.raw("GET", "/debug", {"witch": "raft-stat"}, headers=basic_header(s.admin), port="meta")
+        try:
+            for node, m in json.loads(body).items():
+                out.add(f"meta:snapshot:{m.get('last_snapshot_index')}")
+        except Exception:
+            out.add(f"meta:snapshot:!{st}")
+        return out
 
     def create_db(self, d):
         D = self.db[d]
@@ -471,7 +640,23 @@ class World:
             raise vlib.Infra(f"unknown administrator action {a}")
         if err:
             raise vlib.Infra(f"administrator action {a} {args} failed: {err}")
+        if self.side and a in ("CreateUser", "DropUser", "SetPassword"):
+            self.meta_sync(a, u)
         return "done"
+
+    def meta_sync(self, a, u):
+        """the meta node's own view of the user table follows the catalogue within a moment (its metaclient is told
+        asynchronously): the action is complete when the meta port knows about it"""
+        name = self.uname[u]
+        pw = self.pw_n(u, self.lastv[u]) if a == "DropUser" else self.pw(u, "cur")
+        t0 = time.time()
+        while True:
+            st, _, _ = self.srv.raw("GET", "/debug/vars", headers=basic_header((name, pw)), port="meta")
+            if (st == 401) == (a == "DropUser"):
+                return
+            if time.time() - t0 > 10:
+                return          # (left to the requests that follow: they report what they see)
+            time.sleep(0.1)
 
     def name_gone(self, name, bound=20):
         """the database disappears from the catalogue (DROP DATABASE marks it, the store removes it within seconds)"""
@@ -526,6 +711,8 @@ class World:
         # the victim user's password still works
         st, _, _ = s.raw("GET", "/query", {"q": "SHOW DATABASES"}, headers=basic_header((self.vic, f"V1c#tim_{self.ns}Q")))
         out.add(f"viclogin:{st}")
+        if self.side:
+            out |= self.meta_flags()
         if self.lk:
             st, body, _ = s.raw("GET", "/api/v1/repository", headers=basic_header(s.admin))
             try:
@@ -551,8 +738,12 @@ class Probe:
     """one concrete HTTP request (without credentials) and what it does when it is carried out"""
 
     def __init__(self, key, method, path, params=None, body=None, headers=None, adds=(), tokens=(), cleanup=None, setup=None,
-                 verify=None, listing=None, authn_only=False, effectful=False, note=""):
+                 verify=None, listing=None, authn_only=False, effectful=False, note="", port=None, removes=(), silent=False, snapshot=False):
         self.key, self.method, self.path = key, method, path
+        self.port = port               # the server role whose HTTP port is asked (None = the SQL port)
+        self.removes = set(removes)    # facts that disappear when the request is carried out
+        self.silent = silent           # the handler writes nothing at all (its run shows only in the facts)
+        self.snapshot = snapshot       # carried out = the meta node takes a raft snapshot (the snapshot index moves)
         self.params, self.body, self.headers = dict(params or {}), body, dict(headers or {})
         self.adds = set(adds)          # facts that appear when the request is carried out
         self.tokens = list(tokens)     # secrets an answer to an entitled requester carries (bytes)
@@ -629,9 +820,11 @@ def route_builders():
         add(pre + "/query", ["GET", "POST"], "read", (lambda base: lambda w, d, mk, m: Probe(
             f"{m} {base}/query", m, base + "/query", {"db": w.db[d], "query": "c19metric", "time": str(int(time.time()))},
             tokens=[w.tok_rows[d]]))(base))
+        # (class "read" is the read that is not served from the response cache: Cache-Control: no-store makes the handler
+        # bypass it - results_cache.go:shouldCache; the cached path is class "cread" below)
         add(pre + "/query_range", ["GET", "POST"], "read", (lambda base: lambda w, d, mk, m: Probe(
             f"{m} {base}/query_range", m, base + "/query_range", {"db": w.db[d], "query": "c19metric", "step": "60", **_range(w)},
-            tokens=[w.tok_rows[d]]))(base))
+            headers={"Cache-Control": "no-store"}, tokens=[w.tok_rows[d]]))(base))
         add(pre + "/labels", ["GET", "POST"], "read", (lambda base: lambda w, d, mk, m: Probe(
             f"{m} {base}/labels", m, base + "/labels", {"db": w.db[d], **_range(w)}))(base))
         add(pre + "/label/{name}/values", ["GET", "POST"], "read", (lambda base: lambda w, d, mk, m: Probe(
@@ -665,6 +858,59 @@ def route_builders():
     add("/debug/vars", ["*"], "expvar", lambda w, d, mk, m: Probe("GET /debug/vars", "GET", "/debug/vars", effectful=True))
     add("/debug/query", ["*"], "debugquery", lambda w, d, mk, m: Probe("GET /debug/query", "GET", "/debug/query",
                                                                         {"mod": "shards", "db": w.db[d]}, effectful=True))
+
+    # ---- the cacheable read: Prometheus queries over a time range old enough for the response cache ------------
+    def oldq(w, d):
+        return f'c19old{{job!="{w.ckey(d)}"}}'
+    for i, (pre, base) in enumerate((("/api/v1", "/api/v1"), ("/prometheus/{metric_store}/api/v1", "/prometheus/c19old/api/v1"))):
+        add(pre + "/query_range#old", ["GET", "POST"], "cread", (lambda base: lambda w, d, mk, m: Probe(
+            f"{m} {base}/query_range (old range)", m, base + "/query_range", {"db": w.db[d], "query": oldq(w, d), **w.old_range()},
+            tokens=[w.tok_rows[d]]))(base))
+        add(pre + "/query#old", ["GET", "POST"], "cread", (lambda base: lambda w, d, mk, m: Probe(
+            f"{m} {base}/query (old instant)", m, base + "/query", {"db": w.db[d], "query": oldq(w, d), "time": str(w.old_t0 + 600)},
+            tokens=[w.tok_rows[d]]))(base))
+
+    # ---- the HTTP ports of the meta and the store role (keys "<role>:<path>") -----------------------------------
+    def side(role, path, methods, rc, fn):
+        add(f"{role}:{path}", methods, rc, lambda w, d, mk, m: fn(w, d, mk, m))
+
+    def sp(role, m, path, params=None, **kw):
+        return Probe(f"{role} port {m} {path}", m, path, params, port=role, **kw)
+
+    def flag_probe(path, flag):
+        def build(w, d, mk, m):
+            # the switch is on in the fixture; the request switches it off; the administrator switches it on again
+            return sp("meta", m, path, {"open": "false"}, adds=[f"meta:{flag}:False"], removes=[f"meta:{flag}:True"],
+                      cleanup=lambda: w.srv.raw("POST", path, {"open": "true"}, headers=basic_header(w.srv.admin), port="meta"))
+        return build
+
+    def snap_setup(w):
+        # a raft entry of the administrator's: a snapshot request always finds something new to snapshot
+        return lambda: w.srv.raw("POST", "/balance", {"open": "true"}, headers=basic_header(w.srv.admin), port="meta")
+    side("meta", "/getdata", ["GET"], "m_internals", lambda w, d, mk, m: sp(
+        "meta", m, "/getdata", {"nodeStatus": "ok"} if mk % 2 else {"parts": "Users,Databases"}, tokens=["#Ver:", w.hid], effectful=True))
+    side("meta", "/debug", ["GET"], "m_internals", lambda w, d, mk, m: sp("meta", m, "/debug", {"witch": "raft-stat"}, tokens=["last_log_index"],
+                                                                       effectful=True))
+    side("meta", "/analysisCache", ["GET"], "m_internals", lambda w, d, mk, m: sp("meta", m, "/analysisCache", tokens=["lockHolder"], effectful=True))
+    side("meta", "/debug/vars", ["GET"], "m_stats", lambda w, d, mk, m: sp(
+        "meta", m, "/debug/vars", effectful=True, silent=True, note="no statistics pusher on this server: the handler writes nothing"))
+    side("meta", "/takeover", ["POST"], "m_control", flag_probe("/takeover", "TakeOverEnabled"))
+    side("meta", "/balance", ["POST"], "m_control", flag_probe("/balance", "BalancerEnabled"))
+    side("meta", "/userSnapshot", ["POST"], "m_control", lambda w, d, mk, m: sp(
+        "meta", m, "/userSnapshot", {"version": "0" if mk % 2 else "99999"}, effectful=True, setup=snap_setup(w), snapshot=bool(mk % 2)))
+    side("meta", "/metaRecover", ["POST"], "m_control", lambda w, d, mk, m: sp("meta", m, "/metaRecover", effectful=True, silent=True, setup=snap_setup(w),
+                                                                             snapshot=True))
+    side("meta", "/analysisCache", ["POST"], "m_control", lambda w, d, mk, m: sp("meta", m, "/analysisCache", effectful=True))
+    side("meta", "/movePt", ["POST"], "m_control", lambda w, d, mk, m: sp("meta", m, "/movePt", {"db": "c19-no-such-db", "ptId": "0", "to": "99"},
+                                                                        effectful=True))
+    side("meta", "/expandGroups", ["POST"], "m_control", lambda w, d, mk, m: sp("meta", m, "/expandGroups", effectful=True))
+    side("meta", "/leadershiptransfer", ["POST"], "m_control", lambda w, d, mk, m: sp("meta", m, "/leadershiptransfer", effectful=True))
+    side("meta", "/specialCtlData", ["POST"], "m_control", lambda w, d, mk, m: sp("meta", m, "/specialCtlData", {"cmdDetail": "verif|127.0.0.9"},
+                                                                                effectful=True))
+    side("meta", "/modifyRepDBMasterPt", ["POST"], "m_control", lambda w, d, mk, m: sp(
+        "meta", m, "/modifyRepDBMasterPt", {"db": "c19-no-such-db", "rgId": "0", "newMasterPtId": "0"}, effectful=True))
+    side("meta", "/recoverMeta", ["POST"], "m_control", lambda w, d, mk, m: sp("meta", m, "/recoverMeta", {"metaData": "c19-not-json"}, effectful=True))
+    side("store", "/debug/vars", ["GET"], "s_stats", lambda w, d, mk, m: sp("store", m, "/debug/vars", effectful=True))
 
     # ---- log-keeper product -------------------------------------------------------------------------
     def repo_list(body):
@@ -980,8 +1226,54 @@ def is2xx(st):
     return 200 <= st < 300
 
 
+def wrapper_rest(body):
+    """what a 401 / 403 answer carries after the wrapper's own JSON error object (a handler that ran all the same wrote it)"""
+    txt = body.decode(errors="replace")
+    try:
+        _, end = json.JSONDecoder().raw_decode(txt.lstrip())
+        return txt.lstrip()[end:].strip()
+    except Exception:
+        return txt.strip()
+
+
+def mismatches_side(e, probe, obs):
+    """the side ports (meta / store role): the outcome of the specification says whether the request is refused AND whether the
+    handler runs (the wrapper of these ports may answer 401 and run the handler all the same)"""
+    m = []
+    refused = obs.status in (401, 403)
+    added, removed = obs.added or set(), obs.removed or set()
+    if e["st"] == "ok":
+        if refused:
+            m.append(f"refused ({obs.status}) although the requester holds what the request needs")
+        if added - probe.adds:
+            m.append(f"unexpected change: {sorted(added - probe.adds)} appeared")
+        if removed - probe.removes:
+            m.append(f"unexpected change: {sorted(removed - probe.removes)} disappeared")
+        return m
+    if not refused:
+        m.append(f"answered {obs.status} to a request that must be refused")
+    if e["acted"]:
+        # (prediction of reject_then_continue: the answer is the refusal, and the handler has run)
+        if obs.ran is False:
+            m.append("the handler did not run after the refusal")
+        if (added - probe.adds) or (removed - probe.removes):
+            m.append(f"unexpected change: {sorted((added - probe.adds) | (removed - probe.removes))}")
+        return m
+    if obs.ran:
+        m.append(f"the handler ran although the request was refused: {obs.ran_why}")
+    if obs.tokens:
+        m.append(f"disclosed {obs.tokens} in the answer to a request that must be refused")
+    if added:
+        m.append(f"carried out: {sorted(added)} appeared")
+    if removed:
+        m.append(f"carried out: {sorted(removed)} disappeared")
+    return m
+
+
 def mismatches(e, probe, obs, rc):
     """reasons why the observation differs from the expected outcome e (empty list = it matches)"""
+    if probe.port:
+        return mismatches_side(e, probe, obs)
     m = []
     added = obs.added or set()
     removed = obs.removed or set()
@@ -1044,22 +1336,27 @@ class Runner:
         self.stats["snapshots"] += 1
         return self.w.facts() - self.ignore
 
-    def reset_failures(self, cred, tr):
-        """a wrong password counts towards the lock of the account (5 failures in 30 s): a success clears the counter"""
+    def reset_failures(self, cred, tr, port=None):
+        """a wrong password counts towards the lock of the account (5 failures in 30 s): a success clears the counter.
+        Every role keeps its own counters (each has a metaclient of its own): the success is asked for on the same port."""
         if cred["k"] != "user" or cred["pw"] == "cur" or tr == "bearer":
             return
         u = cred["u"]
         if u == "ghost" or (u != "admin" and self.w.pwv.get(u, 0) < 1):
             return
-        self.fails[u] = self.fails.get(u, 0) + 1
-        if u != "admin" and self.fails[u] < 3:       # (the account is locked at 5 failures within 30 s)
+        k = (port, u)
+        self.fails[k] = self.fails.get(k, 0) + 1
+        if u != "admin" and self.fails[k] < 3:       # (the account is locked at 5 failures within 30 s)
             return
-        self.fails[u] = 0
+        self.fails[k] = 0
         good = (self.w.uname[u], self.w.pw(u, "cur"))
-        st, body, _ = self.w.srv.raw("GET", "/query", {"q": "SHOW DATABASES"}, headers=basic_header(good))
+        if port:
+            st, body, _ = self.w.srv.raw("GET", "/debug/vars", headers=basic_header(good), port=port)
+        else:
+            st, body, _ = self.w.srv.raw("GET", "/query", {"q": "SHOW DATABASES"}, headers=basic_header(good))
         self.stats["resets"] += 1
-        if st != 200:
-            raise vlib.Infra(f"valid credentials of {good[0]} refused ({st} {body[:120]!r}) after a wrong-password request")
+        if st == 401:
+            raise vlib.Infra(f"valid credentials of {good[0]} refused ({st} {body[:120]!r}) on the {port or 'sql'} port after a wrong-password request")
 
     def execute(self, entry, probe, rc, spec=None):
         """entry: the exported step of the specification (args, exp, imp, why)"""
@@ -1073,9 +1370,9 @@ class Runner:
         params, headers = apply_creds(w, probe, r["cred"], r["tr"])
         root_bad = r["cred"]["k"] == "user" and r["cred"]["u"] == "admin" and r["cred"]["pw"] != "cur" and r["tr"] != "bearer"
         with (ROOT_BAD_LOCK if root_bad else contextlib.nullcontext()):
-            st, body, rh = w.srv.raw(probe.method, probe.path, params, probe.body, headers)
+            st, body, rh = w.srv.raw(probe.method, probe.path, params, probe.body, headers, port=probe.port)
             if root_bad:
-                self.reset_failures(r["cred"], r["tr"])
+                self.reset_failures(r["cred"], r["tr"], probe.port)
         obs = Obs()
         obs.status = st
         text = body
@@ -1090,8 +1387,9 @@ class Runner:
             if lst is not None:
                 rev = {D: d for d, D in w.db.items()}
                 obs.listing = {rev.get(x, x) for x in lst if x in rev or x in w.db}
-        need = self.precise or st != 401 or self.n % self.every == 0 or probe.verify is not None
+        need = self.precise or st != 401 or self.n % self.every == 0 or probe.verify is not None or bool(probe.port)
         obs.added = obs.removed = None
+        obs.ran, obs.ran_why = None, ""
         obs.verify = None
         obs.effect_missing = False
         window = []
@@ -1100,6 +1398,31 @@ class Runner:
             obs.added, obs.removed = after - self.cache, self.cache - after
             window, self.pending = self.pending, []
             self.cache = after
+            # the snapshot index of the meta node moves when a snapshot request is carried out (and, rarely, by itself)
+            snap = {f for f in obs.added | obs.removed if f.startswith("meta:snapshot:")}
+            obs.added, obs.removed = obs.added - snap, obs.removed - snap
+            if probe.port:
+                rest = wrapper_rest(body) if st in (401, 403) else ""
+                moved = bool(snap) and probe.snapshot
+                if moved and st in (401, 403):
+                    # told apart from a snapshot the node took by itself: the same request moves the index again
+                    if probe.setup:
+                        probe.setup()
+                    before = {f for f in self.facts() if f.startswith("meta:snapshot:")}
+                    w.srv.raw(probe.method, probe.path, params, probe.body, headers, port=probe.port)
+                    moved = {f for f in self.facts() if f.startswith("meta:snapshot:")} != before
+                    self.cache = None
+                effect = (obs.added & probe.adds) | (obs.removed & probe.removes)
+                if st not in (401, 403):
+                    obs.ran, obs.ran_why = True, f"status {st}"
+                elif rest or effect or moved:
+                    obs.ran = True
+                    obs.ran_why = "; ".join(x for x in (f"the answer goes on after the refusal: {rest[:120]!r}" if rest else "",
+                                                        f"{sorted(effect)} changed" if effect else "", "the meta node took a snapshot" if moved else "") if x)
+                elif probe.silent and not (probe.adds or probe.removes or probe.snapshot):
+                    obs.ran = None          # a handler that writes nothing and changes nothing: its run cannot be seen
+                else:
+                    obs.ran = False
             if probe.verify is not None:
                 expect_carry = entry["exp"]["st"] == "ok" or entry["imp"]["st"] == "ok"
                 if expect_carry or is2xx(st):
@@ -1146,14 +1469,18 @@ class Runner:
         if not need:
             self.pending.append(rec)
         # clean up what was carried out
-        if obs.added and probe.cleanup and obs.added & probe.adds:
+        if probe.port:
+            if probe.cleanup and (obs.ran or not need):
+                probe.cleanup()
+                self.cache = None
+        elif obs.added and probe.cleanup and obs.added & probe.adds:
             probe.cleanup()
             self.ignore |= obs.added & probe.adds
             self.cache = self.cache - self.ignore
         elif probe.cleanup and probe.verify is not None:
             probe.cleanup()
         if not root_bad:
-            self.reset_failures(r["cred"], r["tr"])
+            self.reset_failures(r["cred"], r["tr"], probe.port)
         c = r["cred"]
         self.cover.setdefault(probe.key, set()).add((c["k"], c["u"], c["pw"], r["tr"]))
         self.records.append(rec)
@@ -1200,12 +1527,15 @@ def tlc(cfg, **kw):
 def mode_a(tier):
     """quick: 2 users x 2 databases, all route classes / statement kinds, 3 transports, 4 steps; thorough: that, plus all 5
     transports over 3 steps, plus two-statement queries over 3 steps, plus a narrow request alphabet over 6 steps"""
-    cfgs = ("Auth.exh.quick.cfg", "Auth.exh.race.cfg") if tier == "quick" else \
-        ("Auth.exh.quick.cfg", "Auth.exh.race.cfg", "Auth.exh.transports.cfg", "Auth.exh.thorough.cfg", "Auth.exh.deep.cfg")
+    cfgs = ("Auth.exh.quick.cfg", "Auth.exh.race.cfg", "Auth.exh.cache.cfg", "Auth.exh.ports.cfg") if tier == "quick" else \
+        ("Auth.exh.quick.cfg", "Auth.exh.race.cfg", "Auth.exh.cache.cfg", "Auth.exh.ports.cfg", "Auth.exh.transports.cfg", "Auth.exh.thorough.cfg",
+         "Auth.exh.deep.cfg")
     st = {"generated": 0, "distinct": 0, "depth": 0, "runs": []}
     taken = set()
-    for cfg in cfgs:
-        r = tlc(cfg, workers=6 if tier == "quick" else 8, timeout=1500, coverage=(tier != "quick"))
+    heavy = {"Auth.exh.quick.cfg", "Auth.exh.transports.cfg", "Auth.exh.thorough.cfg", "Auth.exh.deep.cfg"}
+    with cf.ThreadPoolExecutor(4 if tier == "quick" else 3) as ex:       # (the configurations side by side)
+        rs = list(ex.map(lambda cfg: tlc(cfg, workers=(5 if tier == "quick" else 6) if cfg in heavy else 2, timeout=1500, coverage=(tier != "quick")), cfgs))
+    for cfg, r in zip(cfgs, rs):
         for a, n in re.findall(r"<(\w+) line \d+, col \d+ to line \d+, col \d+ of module Auth>: (\d+):\d+", r["out"]):
             if int(n) > 0:
                 taken.add(a)
@@ -1219,7 +1549,7 @@ def mode_a(tier):
                 "BeginNext", "FinishNext"}
         if acts - taken:
             raise vlib.Infra(f"actions never taken in the exhaustive runs: {sorted(acts - taken)}")
-    st["wall_s"] = round(sum(x["wall_s"] for x in st["runs"]), 1)
+    st["wall_s"] = round(max(x["wall_s"] for x in st["runs"]), 1)
     st["cfg"] = " + ".join(cfgs)
     return st
 
@@ -1230,8 +1560,8 @@ def check_seeds():
     res = {}
     try:
         def one(d):
-            if d == "user_slot_alias":      # needs requests in two steps: the race configuration
-                cfg = open(os.path.join(vlib.SPECS, "cfg", "Auth.exh.race.cfg")).read().replace("Dev = {}", "Dev = " + tla_set([d]))
+            if d in SEED_CFG:      # needs a configuration of its own (requests in two steps; the cache; the side ports)
+                cfg = open(os.path.join(vlib.SPECS, "cfg", SEED_CFG[d])).read().replace("Dev = {}", "Dev = " + tla_set([d]))
                 p = os.path.join(tmp, f"Auth.dev.{d}.cfg")
                 open(p, "w").write(cfg)
                 return vlib.run_tlc("AuthMC", p, workers=2, timeout=600)
@@ -1308,6 +1638,20 @@ def live_routes():
         d = json.loads(line[7:])
         rm = [(r["pattern"], m) for r in d["routes"] for m in r["methods"]]
         out[name] = {"routes": rm, "prefixes": d["prefixes"], "via": d["via"]}
+    # the HTTP ports of the meta and the store role dispatch with a switch inside ServeHTTP: the table is taken from the
+    # syntax tree of the tree under verification (vh side-routes) and confirmed on the running port (discover_side)
+    for role in ("meta", "store"):
+        p = vlib.run_vh(vh, ["side-routes", "-role", role, "-src", os.path.realpath(vlib.REPO)], timeout=300)
+        line = next((l for l in p.stdout.splitlines() if l.startswith("SIDEROUTES ")), None)
+        if p.returncode != 0 or line is None:
+            raise vlib.Infra(f"vh side-routes -role {role} failed (rc {p.returncode}): {p.stderr[-1500:]}")
+        d = json.loads(line[11:])
+        if d.get("opaque"):
+            raise vlib.Infra(f"the dispatch of the {role} role's HTTP port has a shape the route walker does not understand (extend "
+                             f"harness/cmd/vh/sideports.go): {d['opaque']}")
+        out[role] = {"routes": [(f"{role}:{r['pattern']}", m) for r in d["routes"] for m in r["methods"]], "prefixes": [],
+                     "unwrapped": [(f"{role}:{r['pattern']}", m) for r in d["routes"] if not r["wrapped"] for m in r["methods"]],
+                     "via": f"syntax tree of (*httpHandler).ServeHTTP in {d['file']}", "candidates": d["candidates"], "wrapper": d.get("wrapper_calls")}
     return out
 
 
@@ -1324,6 +1668,8 @@ def map_routes(live):
             if not ks:
                 unmapped.append((name, pre, "*"))
             seen.update(ks)
+    # (a key "<pattern>#<variant>" with a real method is a second concretisation of the live route <pattern>)
+    seen |= {k for k in ROUTES if k[1] != "*" and "#" in k[0] and (k[0].split("#")[0], k[1]) in seen}
     stale = sorted(k for k in ROUTES if k not in seen)
     return unmapped, stale
 
@@ -1334,9 +1680,41 @@ def probe_unmapped(srv, w, unmapped):
     for name, pattern, method in unmapped:
         path = re.sub(r"\{[^}]+\}", "c19x", pattern)
         m = "GET" if method == "*" else method
-        st, body, _ = srv.raw(m, path)
+        port = None
+        if name in ("meta", "store"):
+            port, path = name, path.split(":", 1)[1]
+        st, body, _ = srv.raw(m, path, port=port)
+        if port and st == 200 and not body:
+            st = 404          # (the side ports answer a path they do not dispatch with an empty 200)
         out.append((pattern, method, st))
     return out
+
+
+def discover_side(srv, role, live):
+    """Which paths does the RUNNING port of the role dispatch?  A path the handler does not know is answered with an empty
+    200 (GET, POST) or an empty 400 (other methods) before any wrapper runs; everything else is a route.  Candidates: every
+    path-like string literal of the handler's package, the table from the syntax tree, the routes of the SQL port and
+    a word list.  -> (routes found live, [(path, method, status)] that answer a request without credentials)"""
+    cands = set(live[role]["candidates"]) | {k[0].split(":", 1)[1] for k in live[role]["routes"]}
+    cands |= {re.sub(r"\{[^}]+\}", "c19x", pm[0]) for pm in live["basic"]["routes"]}
+    cands |= {"/", "/ping", "/status", "/health", "/metrics", "/query", "/write", "/debug/pprof/", "/debug/pprof/cmdline", "/debug/pprof/goroutine",
+              "/debug/requests", "/debug/ctrl", "/debug/query", "/snapshot", "/join", "/peers", "/lease", "/execute", "/raft", "/users", "/config", "/admin",
+              "/getData", "/getdata/", "/takeOver", "/failpoint", "/backup/run", "/runtime_config"}
+    cands = {c.split("?")[0] for c in cands}
+    found, anonymous = set(), []
+    ref = {}
+    for m in ("GET", "POST", "PUT", "DELETE"):
+        st, body, _ = srv.raw(m, "/c19-no-such-path", port=role)
+        ref[m] = (st, body.strip())
+    for c in sorted(cands):
+        for m in ("GET", "POST", "PUT", "DELETE"):
+            st, body, _ = srv.raw(m, c, port=role)
+            if (st, body.strip()) == ref[m]:
+                continue
+            found.add((f"{role}:{c}", m))
+            if st not in (401, 403):
+                anonymous.append((c, m, st))
+    return found, anonymous
 
 
 def stray_paths(srv):
@@ -1371,12 +1749,17 @@ def cred_class(w, r):
 
 def live_keys(live, server):
     """the keys of ROUTES that are live on the server"""
-    return set(live[server]["routes"]) | {k for k in ROUTES if k[1] == "*" and k[0].split("#")[0] in live[server]["prefixes"]}
+    if server == "ports":
+        base = set(live["basic"]["routes"])
+        return {k for k in ROUTES if ROUTES[k][0] == "cread" and (k[0].split("#")[0], k[1]) in base} | set(live["meta"]["routes"]) | set(live["store"]["routes"])
+    rs = set(live[server]["routes"])
+    return rs | {k for k in ROUTES if k[1] == "*" and k[0].split("#")[0] in live[server]["prefixes"]} | \
+        {k for k in ROUTES if k[1] != "*" and "#" in k[0] and (k[0].split("#")[0], k[1]) in rs}
 
 
 def plan_matrix(entries, multi, live, server, tier, seed):
     """-> list of (entry, kind, spec) in execution order for one server; spec = (pattern, method) or statement variant"""
-    rnd = random.Random(seed * 131 + (1 if server == "basic" else 2))
+    rnd = random.Random(seed * 131 + {"basic": 1, "logkeeper": 2, "ports": 3}[server])
     thorough = tier != "quick"
     routes = live_keys(live, server)
     by_class = {}
@@ -1391,8 +1774,12 @@ def plan_matrix(entries, multi, live, server, tier, seed):
         r = e["args"]
         rc = r["rc"]
         lk = rc in LK_CLASSES
-        if (server == "logkeeper") != lk:
+        if (server == "ports") != (rc in PORTS_CLASSES):
             continue
+        if server != "ports" and (server == "logkeeper") != lk:
+            continue
+        if rc in SIDE_CLASSES and r["db"] != "db1":
+            continue            # (the side ports know no database: one of the two identical requests)
         if rc == "query":
             k = r["stmts"][0]
             nv = NVARIANTS[k]
@@ -1408,7 +1795,7 @@ def plan_matrix(entries, multi, live, server, tier, seed):
             pms = by_class.get(rc, [])
             if not pms:
                 continue
-            if thorough or (r["tr"] == "basic" and r["db"] == "db1"):
+            if thorough or (r["tr"] == "basic" and r["db"] == "db1") or (rc in SIDE_CLASSES and r["tr"] == "bearer"):
                 sel = pms
             elif r["tr"] != "basic" and rnd.random() < 0.4:
                 continue
@@ -1462,6 +1849,131 @@ def run_matrix(server, entries, multi, live, tier, seed, finding_of, out, unmapp
                        "drift": sorted(drift), "stray": stray_paths(srv), "unmapped": um}
     except BaseException as ex:   # noqa
         out[server] = {"error": ex, "log": srv.tail_log(2000) if srv else ""}
+    finally:
+        if srv:
+            srv.stop()
+
+
+# ---------------------------------------------------------------------------------------------------
+# PORTS: the server that carries the side ports (meta, store role) and the response cache
+
+def export_cache(seed, n):
+    """the cache family of Auth.bfs.cache.cfg (who fills, who hits; an administrator action in between); n = None: all"""
+    r = tlc("Auth.bfs.cache.cfg", workers=2, timeout=900)
+    hs = sorted((h for h in r["traces"] if len(h) == 3), key=lambda h: json.dumps([[e["a"], e["args"]] for e in h], sort_keys=True))
+    hot = [h for h in hs if any(e["a"] == "Request" and e["exp"] != e["imp"] for e in h)]
+    cold = [h for h in hs if not any(e["a"] == "Request" and e["exp"] != e["imp"] for e in h)]
+    st = {"cfg": "Auth.bfs.cache.cfg", "behaviours": len(hs), "decided_differently_by_cache_hit_skips_authz": len(hot), "wall_s": round(r["wall_s"], 1)}
+    if n is None or n >= len(hs):
+        st["played"] = len(hs)
+        return hs, st
+    rnd = random.Random(seed * 17 + 7)
+    rnd.shuffle(hot)
+    rnd.shuffle(cold)
+    pick = hot[:n * 3 // 5] + cold[:n - min(len(hot), n * 3 // 5)]
+    st["played"] = len(pick)
+    return pick, st
+
+
+CREAD_FAMILIES = ["/api/v1/query_range#old", "/prometheus/{metric_store}/api/v1/query_range#old", "/api/v1/query#old",
+                  "/prometheus/{metric_store}/api/v1/query#old"]
+
+
+def cread_spec(w, rnd):
+    """the concrete route of a cacheable read inside a behaviour: one route family per behaviour (its requests share the
+    cache key), the method varies"""
+    return (CREAD_FAMILIES[w.cread_family % len(CREAD_FAMILIES)], rnd.choice(["GET", "POST"]))
+
+
+def restore_fixture(w, a, args):
+    """undo an administrator action of a cache behaviour: back to the fixed privilege table"""
+    s = w.srv
+    fix = {("u1", "db1"): "read", ("u2", "db1"): "write", ("u3", "db2"): "all"}
+    u = args.get("u")
+    if a in ("Grant", "Revoke"):
+        d = args["d"]
+        err = s.addl(f'REVOKE ALL ON "{w.db[d]}" FROM {w.uname[u]}')
+        if not err and fix.get((u, d)):
+            err = s.addl(f'GRANT {fix[(u, d)].upper()} ON "{w.db[d]}" TO {w.uname[u]}')
+        if err:
+            raise vlib.Infra(f"restoring the privilege table after {a} {args}: {err}")
+    elif a == "DropUser":
+        w.root("CreateUser", {"u": u})
+        w.root("SetPassword", {"u": u})
+        for (x, d), p in fix.items():
+            if x == u:
+                w.root("Grant", {"u": u, "d": d, "p": p})
+
+
+def play_cache(runner, hists, seed, first=0):
+    """every behaviour gets a cache key of its own (a label matcher in the query text) and starts from the fixed privilege table"""
+    w = runner.w
+    rnd = random.Random(f"{seed}-cache")
+    for i, h in enumerate(hists):
+        idx = first + i
+        w.cache_ns = f"s{seed}c{idx}"
+        w.cread_family = idx if idx % 5 else 0          # (mostly the range queries, which the cache serves)
+        undo = []
+        for si, e in enumerate(h):
+            if e["a"] == "Request":
+                spec = cread_spec(w, rnd)
+                probe = ROUTES[spec][1](w, e["args"]["db"], w.mk())
+                rec = runner.execute(e, probe, "cread", ["r", list(spec)])
+                rec["behaviour"], rec["step"] = idx, si
+            else:
+                w.root(e["a"], e["args"])
+                runner.cache = None
+                undo.append((e["a"], e["args"]))
+        for a, args in undo:
+            restore_fixture(w, a, args)
+            runner.cache = None
+    w.cache_ns = None
+
+
+def run_ports(entries, caches, live, tier, seed, finding_of, out, unmapped=()):
+    """matrix of the side-port classes and of the cacheable read (every request with a cache key of its own), the
+    discovery of the routes the running side ports dispatch, the listening ports of the process, then the cache family"""
+    srv = None
+    try:
+        srv = AuthServer(seed, name="c19po", store_port=True)
+        w = World(srv, f"s{seed}p")
+        w.side = True
+        info = {"listening": srv.listening(), "configured": {"meta": srv.base + 1, "sql": srv.base + 3, "store": srv.base + 9},
+                "store_port_opened_by_the_server": srv.store_conf_listens}
+        # every port of the process that speaks HTTP must be one of the mapped roles
+        http_ports = [p for p in info["listening"] if srv.speaks_http(p)]
+        info["http"] = http_ports
+        known = {srv.base + 1: "meta", srv.base + 3: "sql"}
+        if srv.store_conf_listens:
+            known[srv.base + 9] = "store"
+        info["unmapped_http_ports"] = [p for p in http_ports if p not in known]
+        found, anon = {}, {}
+        for role in ("meta", "store"):
+            found[role], anon[role] = discover_side(srv, role, live)
+        um = probe_unmapped(srv, w, [u for u in unmapped if u[0] in ("meta", "store")])
+        plan, by_class = plan_matrix(entries, [], live, "ports", tier, seed)
+        w.setup_matrix(8)
+        srv.open_store_port()      # (the store role's user table: the catalogue with the fixture's users)
+        # the switches of the meta node are on in the fixture
+        for path in ("/takeover", "/balance"):
+            st, body, _ = srv.raw("POST", path, {"open": "true"}, headers=basic_header(srv.admin), port="meta")
+            if st != 200:
+                raise vlib.Infra(f"meta port {path}?open=true as the administrator: {st} {body[:200]!r}")
+        runner = Runner(w, finding_of)
+        base = runner.facts()
+        t0 = time.time()
+        run_plan(runner, plan)
+        nmat = len(runner.records)
+        t1 = time.time()
+        play_cache(runner, caches, seed)
+        final = runner.facts()
+        drift = {f for f in (final ^ base) - runner.ignore if not f.startswith("meta:snapshot:") and not re.search(r"c19(w|pw|ps|into|cm)_?\d|:c19l\d", f)}
+        out["ports"] = {"runner": runner, "plan": len(plan), "classes": {k: len(v) for k, v in by_class.items()}, "wall_s": round(t1 - t0, 1),
+                        "cache_wall_s": round(time.time() - t1, 1), "matrix_requests": nmat, "cache_requests": len(runner.records) - nmat,
+                        "cache_behaviours": len(caches), "caches": caches, "drift": sorted(drift), "stray": [], "unmapped": um, "info": info,
+                        "found": {r: sorted(found[r]) for r in found}, "anonymous": anon}
+    except BaseException as ex:   # noqa
+        out["ports"] = {"error": ex, "log": srv.tail_log(2000) if srv else ""}
     finally:
         if srv:
             srv.stop()
@@ -1530,6 +2042,9 @@ def prepare_behaviour(srv, idx, seed):
     """the databases, rows and by-standers of one behaviour (before the rows are waited for)"""
     w = World(srv, f"s{seed}q{idx}z", users=("u1", "u2"))
     w.ndel = 10
+    w.side = True
+    w.cache_ns = f"s{seed}q{idx}"       # the cacheable reads of the behaviour share their cache key per database, as in the specification
+    w.cread_family = idx if idx % 4 else 0
     for d in w.db:
         w.create_db(d)
     for d in w.db:
@@ -1548,7 +2063,7 @@ def play_behaviour(w, hist, idx, seed, finding_of, live, precise=False):
     exists = set(w.db)
     orig_facts = w.facts
     w.facts = lambda dbs=None: orig_facts(sorted(exists))
-    routes = live_keys(live, "basic")
+    routes = live_keys(live, "basic") | set(live["meta"]["routes"])
     by_class = {}
     for pm, (rc, _) in sorted(ROUTES.items()):
         if pm in routes and rc != "query":
@@ -1569,7 +2084,7 @@ def play_behaviour(w, hist, idx, seed, finding_of, live, precise=False):
                 pms = by_class.get(r["rc"])
                 if not pms:
                     continue
-                spec = ["r", rnd.choice(pms)]
+                spec = ["r", cread_spec(w, rnd) if r["rc"] == "cread" else rnd.choice(pms)]
                 probe = ROUTES[spec[1]][1](w, r["db"], w.mk())
             rec = runner.execute(e, probe, r["rc"], spec)
             rec["step"] = si
@@ -1625,6 +2140,8 @@ def run_sequences(hists, seed, finding_of, live, out, servers=4):
         srv = AuthServer(seed, name=f"c19q{k}")
         try:
             t1 = time.time()
+            for path in ("/takeover", "/balance"):
+                srv.raw("POST", path, {"open": "true"}, headers=basic_header(srv.admin), port="meta")
             worlds = [prepare_behaviour(srv, i, seed) for i, _ in share]
             for w in worlds:
                 w.wait_visible(list(w.db))
@@ -1749,6 +2266,12 @@ FINDING_TEXT = {
     "noauthz_createdb": "POST /api/v1/tsdb/{tsdb} creates a database for any authenticated user (no privilege check)",
     "user_slot_alias": "the authenticated user is a pointer into the SQL node's user table, which DROP USER compacts in place: a request in flight "
                        "is authorised with the record of the user that moved into its slot",
+    "cache_hit_skips_authz": "a full hit of the result cache (Prometheus range queries) is answered without the authorisation decision: a user "
+                             "without READ on the database gets the answer a privileged user's request left in the cache",
+    "reject_then_continue": "the wrapper of the meta / store HTTP ports (lib/httpserver.Authenticate) answers a Bearer header with 401 "
+                            "'unsupported authentication' and runs the handler all the same",
+    "noauthz_sideport": "the meta / store HTTP ports authenticate but never authorise: any user without a single privilege reads the catalogue "
+                        "with the password hashes and switches take-over / balancing",
     "noauthz_logkeeper": "the log-keeper API authenticates but does not authorise (repository / log-stream management, log ingestion, "
                          "consumption): any authenticated user creates, changes, lists and deletes repositories",
 }
@@ -1783,14 +2306,18 @@ def run(tier, seed):
     live = live_routes()
     unmapped, stale = map_routes(live)
     vlib.log(f"[c19] live route table: basic {len(live['basic']['routes'])} route-methods + {live['basic']['prefixes']}, "
-             f"log-keeper {len(live['logkeeper']['routes'])}; unmapped {unmapped}; stale {stale}; {time.time() - t0:.1f}s")
+             f"log-keeper {len(live['logkeeper']['routes'])}, meta port {len(live['meta']['routes'])}, store port {len(live['store']['routes'])}; "
+             f"unmapped {unmapped}; stale {stale}; {time.time() - t0:.1f}s")
     out = {}
     with cf.ThreadPoolExecutor(8) as ex:
         fm = ex.submit(export_matrix)
         fq = ex.submit(export_sequences, 40 if quick else 260, 16 if quick else 22, seed)
         fc = ex.submit(export_scripts, seed, 6 if quick else 99)
         fr = ex.submit(export_race, seed, 12 if quick else 60)
+        fk = ex.submit(export_cache, seed, 420 if quick else None)
         entries, multi, mstats = fm.result()
+        caches, kstats = fk.result()
+        mstats["cache"] = kstats
         hists, qstats = fq.result()
         scripts, cstats = fc.result()
         qstats["scripted"] = cstats
@@ -1800,6 +2327,7 @@ def run(tier, seed):
         fa = ex.submit(mode_a, tier)
         fs = ex.submit(check_seeds)
         jobs = [ex.submit(run_matrix, sv, entries, multi, live, tier, seed, finding_of, out, unmapped) for sv in ("basic", "logkeeper")]
+        jobs.append(ex.submit(run_ports, entries, caches, live, tier, seed, finding_of, out, unmapped))
         hists = scripts + (hists[:18] if quick else hists[:142])
         jobs.append(ex.submit(run_sequences, hists, seed, finding_of, live, out, 4 if quick else 6))
         jobs.append(ex.submit(run_race, races, seed, finding_of, out, 2 if quick else 4))
@@ -1808,7 +2336,7 @@ def run(tier, seed):
         vlib.log(f"[c19] replay done at {time.time() - t0:.1f}s")
         exh = fa.result()
         seeds = fs.result()
-    for k in ("basic", "logkeeper", "seq", "race"):
+    for k in ("basic", "logkeeper", "ports", "seq", "race"):
         if "error" in out[k]:
             ex_ = out[k]["error"]
             vlib.log(out[k].get("log", ""))
@@ -1823,7 +2351,7 @@ def report(out, live, unmapped, stale, exh, seeds, mstats, qstats, finding_of, t
     nviol = 0
     infra = []
     # (1) the route table
-    answered = [u for sv in ("basic", "logkeeper") for u in out[sv]["unmapped"] if u[2] not in (401, 403, 404, 405)]
+    answered = [u for sv in ("basic", "logkeeper", "ports") for u in out[sv]["unmapped"] if u[2] not in (401, 403, 404, 405)]
     if unmapped:
         if answered:
             path = vlib.save_replay(PROP, {"kind": "unmapped", "seed": seed, "routes": [list(u) for u in unmapped], "anonymous_answers": answered})
@@ -1831,15 +2359,36 @@ def report(out, live, unmapped, stale, exh, seeds, mstats, qstats, finding_of, t
             vlib.log(f"   routes without a route class that answer a request without credentials: {answered}")
             nviol += 1
         else:
-            infra.append(f"live routes without a route class in props/c19.py (they refuse anonymous requests: {[o for sv in ('basic', 'logkeeper') for o in out[sv]['unmapped']]}): {unmapped}")
+            infra.append(f"live routes without a route class in props/c19.py (they refuse anonymous requests: {[o for sv in ('basic', 'logkeeper', 'ports') for o in out[sv]['unmapped']]}): {unmapped}")
     for sv in ("basic", "logkeeper"):
         if out[sv]["stray"]:
             path = vlib.save_replay(PROP, {"kind": "stray", "seed": seed, "server": sv, "paths": out[sv]["stray"]})
             print(f"VIOLATION property={PROP} replay={path}")
             vlib.log(f"   paths outside the route table are answered without credentials on the {sv} server: {out[sv]['stray']}")
             nviol += 1
+    # (1b) the side ports: the routes the running ports dispatch are those of the syntax tree; nothing there answers a request
+    # without credentials; every port of the process that speaks HTTP belongs to a mapped role
+    po = out["ports"]
+    for role in ("meta", "store"):
+        table = set(live[role]["routes"])
+        got = {tuple(x) for x in po["found"][role]}
+        anon = po["anonymous"][role]
+        if anon:
+            path = vlib.save_replay(PROP, {"kind": "unmapped", "seed": seed, "routes": [[role, f"{role}:{a[0]}", a[1]] for a in anon], "anonymous_answers": anon})
+            print(f"VIOLATION property={PROP} replay={path}")
+            vlib.log(f"   the {role} role's HTTP port answers requests without credentials: {anon}")
+            nviol += 1
+        elif got - table:
+            infra.append(f"the running {role} port dispatches routes the syntax-tree walk did not find: {sorted(got - table)}")
+        if table - got:
+            infra.append(f"routes of the {role} port's syntax tree that the running port does not dispatch: {sorted(table - got)}")
+    if po["info"]["unmapped_http_ports"]:
+        path = vlib.save_replay(PROP, {"kind": "stray", "seed": seed, "server": "ports", "paths": po["info"]["unmapped_http_ports"]})
+        print(f"VIOLATION property={PROP} replay={path}")
+        vlib.log(f"   the server process speaks HTTP on ports that belong to no mapped role: {po['info']}")
+        nviol += 1
     # (2), (3) requests
-    runners = [(sv, out[sv]["runner"], None) for sv in ("basic", "logkeeper")] + [("seq", x["runner"], x) for x in out["seq"]["res"]]
+    runners = [(sv, out[sv]["runner"], None) for sv in ("basic", "logkeeper", "ports")] + [("seq", x["runner"], x) for x in out["seq"]["res"]]
     known = {}
     shown = 0
     for where, rn, beh in runners:
@@ -1848,7 +2397,9 @@ def report(out, live, unmapped, stale, exh, seeds, mstats, qstats, finding_of, t
             nviol += 1
             if shown < 8:
                 shown += 1
-                if beh is None:
+                if beh is None and "behaviour" in v:
+                    case = {"kind": "cache", "seed": seed, "idx": v["behaviour"], "hist": out["ports"]["caches"][v["behaviour"]], "result": slim(v)}
+                elif beh is None:
                     case = {"kind": "matrix", "server": where, "seed": seed, "tier": tier,
                             "records": [{"entry": by_n[n]["entry"], "spec": by_n[n]["spec"]} for n in v.get("window", []) if n in by_n] +
                                        [{"entry": v["entry"], "spec": v["spec"]}], "result": slim(v)}
@@ -1867,7 +2418,7 @@ def report(out, live, unmapped, stale, exh, seeds, mstats, qstats, finding_of, t
                     path = vlib.save_replay(PROP, {"kind": "seq", "seed": seed, "idx": beh["idx"], "hist": beh["hist"], "result": d})
                     print(f"VIOLATION property={PROP} replay={path}")
                     vlib.log(f"   behaviour {beh['idx']} step {d['step']} {d['a']} {d['args']}: " + "; ".join(d["detail"])[:600])
-    for sv in ("basic", "logkeeper"):
+    for sv in ("basic", "logkeeper", "ports"):
         if out[sv]["drift"]:
             nviol += 1
             path = vlib.save_replay(PROP, {"kind": "drift", "seed": seed, "server": sv, "facts": out[sv]["drift"]})
@@ -1918,12 +2469,12 @@ def report(out, live, unmapped, stale, exh, seeds, mstats, qstats, finding_of, t
             else:
                 stats[k] = stats.get(k, 0) + v
     cover = {}
-    for sv in ("basic", "logkeeper"):
+    for sv in ("basic", "logkeeper", "ports"):
         for k, v in out[sv]["runner"].cover.items():
             cover.setdefault(k, set()).update(v)
     classes8 = ["none", "malformed", "unknown user", "wrong password", "read-only user", "write-only user", "user of another database", "administrator"]
     per_route = {}
-    for sv in ("basic", "logkeeper"):
+    for sv in ("basic", "logkeeper", "ports"):
         for r in out[sv]["runner"].records:
             per_route.setdefault(r["key"], set()).add(cred_class(None, r["req"]))
     short = sorted(k for k, v in per_route.items() if not set(classes8) <= v and "+" not in k)
@@ -1931,7 +2482,7 @@ def report(out, live, unmapped, stale, exh, seeds, mstats, qstats, finding_of, t
     seqres = out["seq"]["res"]
     cov = {
         "states": exh["distinct"], "transitions": exh["generated"],
-        "traces_validated_against_impl": len(seqres) + len({json.dumps(r["req"], sort_keys=True) for sv in ("basic", "logkeeper") for r in out[sv]["runner"].records}),
+        "traces_validated_against_impl": len(seqres) + len({json.dumps(r["req"], sort_keys=True) for sv in ("basic", "logkeeper", "ports") for r in out[sv]["runner"].records}) + out["ports"]["cache_behaviours"],
         "samples": [[{"a": e["a"], "args": e["args"]} for e in seqres[0]["hist"]]] if seqres else [],
         "evaluations": len(allrec) + sum(x["may_cells"] for x in seqres) + race["requests"],
         "distinct_nontrivial": distinct,
@@ -1944,12 +2495,21 @@ def report(out, live, unmapped, stale, exh, seeds, mstats, qstats, finding_of, t
                 "distinct (abstract request, concrete route / statement) pairs other than the trivial request without any credentials",
         "tlc": {"exh": exh, "matrix": mstats, "sim": qstats, "deviations_with_counterexample": seeds},
         "route_table": {"basic": {"route_methods": len(live["basic"]["routes"]), "prefixes": live["basic"]["prefixes"], "via": live["basic"]["via"]},
+                        "meta": {"route_methods": len(live["meta"]["routes"]), "via": live["meta"]["via"]},
+                        "store": {"route_methods": len(live["store"]["routes"]), "via": live["store"]["via"]},
                         "logkeeper": {"route_methods": len(live["logkeeper"]["routes"]), "prefixes": live["logkeeper"]["prefixes"]},
                         "mapped_entries": len(ROUTES), "unmapped": [list(u) for u in unmapped], "mapping_entries_not_live": [list(x) for x in stale]},
         "concrete_routes_probed": len(per_route),
         "routes_missing_a_credential_class": short,
         "matrix": {sv: {"requests": len(out[sv]["runner"].records), "plan": out[sv]["plan"], "routes_per_class": out[sv]["classes"],
-                        "wall_s": out[sv]["wall_s"]} for sv in ("basic", "logkeeper")},
+                        "wall_s": out[sv]["wall_s"]} for sv in ("basic", "logkeeper", "ports")},
+        "side_ports": {"listening_ports_of_the_process": po["info"]["listening"], "speak_http": po["info"]["http"], "configured": po["info"]["configured"],
+                       "store_http_port_opened_by_the_server": po["info"]["store_port_opened_by_the_server"],
+                       "store_port_bound_by": "the server" if po["info"]["store_port_opened_by_the_server"] else "vh sideport-store (run.NewService / Init / Open)",
+                       "routes_dispatched_by_the_running_ports": {r: len(po["found"][r]) for r in po["found"]},
+                       "wrapper": {r: live[r].get("wrapper") for r in ("meta", "store")}, "via": {r: live[r]["via"] for r in ("meta", "store")}},
+        "cache_family": {"behaviours": po["cache_behaviours"], "requests": po["cache_requests"], "wall_s": po["cache_wall_s"],
+                         "hits_expected_by_the_specification": sum(1 for r in po["runner"].records if r["entry"].get("hit"))},
         "sequences": {"behaviours": len(seqres), "steps": sum(x["steps"] for x in seqres), "requests": sum(len(x["runner"].records) for x in seqres),
                       "may_cells_probed": sum(x["may_cells"] for x in seqres), "wall_s": out["seq"]["wall_s"], "prepare_s": out["seq"]["prepare_s"]},
         "race_probe": {k: (v if not isinstance(v, list) else len(v)) for k, v in race.items()},
@@ -1960,8 +2520,17 @@ def report(out, live, unmapped, stale, exh, seeds, mstats, qstats, finding_of, t
     }
     vlib.write_evidence(PROP, tier, seed, "model_checking", cov, time.time() - t0, nviol, [
         "TLC bounds as in the cfg files named under coverage.tlc; deviation cfgs are generated from BASE_CONST in props/c19.py",
-        "three real single-node ts-servers (auth-enabled, shared-secret, pprof-enabled, runtime-config enabled; one of them with product-type "
-        "logkeeper), the administrator created first; the route table comes from sql.NewServer in the same two configurations",
+        "real single-node ts-servers (auth-enabled on the SQL and the meta port, shared-secret, pprof-enabled, runtime-config enabled, result "
+        "cache enabled with max-cache-freshness 1m; one of them with product-type logkeeper), the administrator created first; the route table "
+        "of the SQL port comes from sql.NewServer in the same two configurations, the tables of the meta and the store port from the syntax "
+        "tree of their ServeHTTP, confirmed on the running ports",
+        "the store role's HTTP service is never opened by ts-server / ts-store in this tree (the configured port does not listen): it is opened "
+        "by the harness from the exported constructors (run.NewService, Init, Open) with the user table of the live catalogue",
+        "a side-port handler counts as run when the answer is not 401/403, or carries more than the wrapper's error object, or its effect "
+        "(switch of the meta node, snapshot index) is there; a handler that writes and changes nothing (/debug/vars of the meta port "
+        "without a statistics pusher) cannot be seen running",
+        "the cache key of the specification (one per database) is a label matcher in the query text shared by the requests of one behaviour; "
+        "cached answers expire after 30 minutes (memcache-expiration), longer than a behaviour lives",
         "a request counts as refused when its status is not 2xx, nothing appeared / disappeared in the catalogue, users, grants, victim series "
         "as the administrator sees them afterwards, no secret of the database is in the answer and a listing names nothing; 401 and 403 are not "
         "told apart (coverage.judging.refusal_code_differs counts them)",
@@ -2005,11 +2574,26 @@ def replay(path, seed):
             return 1
         print("replay passes" + (" (known finding re-observed)" if out["race"]["alias"] else ""))
         return 0
-    if kind == "matrix":
-        srv = AuthServer(seed, logkeeper=(obj["server"] == "logkeeper"), name="c19rp")
+    if kind == "cache":
+        srv = AuthServer(seed, name="c19rp")
         try:
-            w = World(srv, f"s{seed}m")
+            w = World(srv, f"s{seed}p")
+            w.side = True
+            w.setup_matrix(4)
+            rn = Runner(w, finding_of, precise=True)
+            play_cache(rn, [obj["hist"]], seed, first=obj.get("idx", 0))
+        finally:
+            srv.stop()
+        bad = rn.violations
+    elif kind == "matrix":
+        srv = AuthServer(seed, logkeeper=(obj["server"] == "logkeeper"), name="c19rp", store_port=(obj["server"] == "ports"))
+        try:
+            w = World(srv, f"s{seed}m" if obj["server"] != "ports" else f"s{seed}p")
+            w.side = obj["server"] == "ports"
             w.setup_matrix(12)
+            if w.side:
+                for path in ("/takeover", "/balance"):
+                    srv.raw("POST", path, {"open": "true"}, headers=basic_header(srv.admin), port="meta")
             rn = Runner(w, finding_of, precise=True)
             plan = [(x["entry"], x["spec"][0], tuple(x["spec"][1]) if isinstance(x["spec"][1], list) else x["spec"][1]) for x in obj["records"]]
             run_plan(rn, plan)
